@@ -1,0 +1,12 @@
+//go:build verif
+
+package tcp
+
+// Verification hooks (build tag verif). Add-only; see /verif/MANIFEST.json.
+
+// VerifReadServerName exposes readServerName (input: handshake message
+// without the 5 byte record header).
+func VerifReadServerName(handshake []byte) (string, bool) { return readServerName(handshake) }
+
+// VerifClientHelloBufferSize exposes clientHelloBufferSize.
+func VerifClientHelloBufferSize(data []byte) (int, error) { return clientHelloBufferSize(data) }
